@@ -105,13 +105,20 @@ def shapeOfState (st : CellState Float) : ShapeM :=
 def parseKind? : String → Option CellKind
   | "hex" => some .hex | "sec3" => some .sec3 | "square" => some .square | _ => none
 
-/-- `P:x:y` / `R:r` / `T:θ` act on the cell, `W:x:y` moves the wrapping `CellWrap` -/
-def parseOps? (s : String) : Option (List (Sum (CellOp Float) (Pt Float))) :=
+/-- `P:x:y` / `R:r` / `T:θ` / `M:dx:dy` / `Q:r:a` are the mutators of the cell, `U:x:y` adds a user at an
+    absolute position, `B:ang:ratio` a border user, `D` deletes the users; `W:x:y` moves the wrapping
+    `CellWrap` -/
+def parseOps? (s : String) : Option (List (Sum (Call Float) (Pt Float))) :=
   if s == "-" then some [] else
   (fields s ",").mapM (fun t => match t.splitOn ":" with
-    | ["P", x, y] => do let x ← parseFloat? x; let y ← parseFloat? y; some (.inl (.setPos (x, y)))
-    | ["R", r] => do let r ← parseFloat? r; some (.inl (.setRadius r))
-    | ["T", t] => do let t ← parseFloat? t; some (.inl (.setRot t))
+    | ["P", x, y] => do let x ← parseFloat? x; let y ← parseFloat? y; some (.inl (.set (.setPos (x, y))))
+    | ["R", r] => do let r ← parseFloat? r; some (.inl (.set (.setRadius r)))
+    | ["T", t] => do let t ← parseFloat? t; some (.inl (.set (.setRot t)))
+    | ["M", x, y] => do let x ← parseFloat? x; let y ← parseFloat? y; some (.inl (.set (.moveBy (x, y))))
+    | ["Q", r, a] => do let r ← parseFloat? r; let a ← parseFloat? a; some (.inl (.set (.movePolar r a)))
+    | ["U", x, y] => do let x ← parseFloat? x; let y ← parseFloat? y; some (.inl (.addUser (x, y)))
+    | ["B", a, r] => do let a ← parseFloat? a; let r ← parseFloat? r; some (.inl (.borderUser a r))
+    | ["D"] => some (.inl .deleteUsers)
     | ["W", x, y] => do let x ← parseFloat? x; let y ← parseFloat? y; some (.inr (x, y))
     | _ => none)
 
@@ -144,6 +151,9 @@ def handleOther (toks : List String) : String :=
           | .ok raw => showPts (clusterCentres raw (Circ.cisDeg rt) (px, py))
           | .error e => "error:" ++ toString e
       | _, _, _, _, _ => "bad-op"
+  | ["rotpts", ang, pts] => match parseFloat? ang, parsePts? pts with
+      | some ang, some pts => if pts.isEmpty then "-" else showPts (pts.map (rot (Circ.cisDeg ang)))
+      | _, _ => "bad-op"
   | ["distm", us, cs] => match parsePts? us, parsePts? cs with
       | some us, some cs => showList (fun row => showList showFloat row) (distMatrix us cs) ";"
       | _, _ => "bad-op"
@@ -166,7 +176,8 @@ def handle (toks : List String) : String :=
             parseFloat? rt, parseOps? ops with
       | some wx, some wy, some k, some px, some py, some size, some rt, some ops =>
           let (w, st) := ops.foldl (fun (acc : Pt Float × CellState Float) o => match o with
-            | .inl op => (acc.1, step acc.2 op)
+            | .inl (.set op) => (acc.1, step acc.2 op)
+            | .inl _ => acc
             | .inr wp => (wp, acc.2)) ((wx, wy), initState k (px, py) size rt)
           let ws : WrapState Float := { pos := w, inner := st }
           queryShape (polyShape ws.pos st.radius (wrapVerts ws)) q
@@ -174,9 +185,11 @@ def handle (toks : List String) : String :=
   | "cellhist" :: k :: px :: py :: size :: rt :: ops :: q =>
       match parseKind? k, parseFloat? px, parseFloat? py, parseFloat? size, parseFloat? rt, parseOps? ops with
       | some k, some px, some py, some size, some rt, some ops =>
-          let st := ops.foldl (fun st o => match o with | .inl op => step st op | .inr _ => st)
-            (initState k (px, py) size rt)
-          queryState st q
+          let calls := ops.filterMap (fun o => match o with | .inl c => some c | .inr _ => none)
+          let o := callRun pnpoly 1e-15 { st := initState k (px, py) size rt, users := [] } calls
+          match q with
+          | ["users"] => if o.users.isEmpty then "-" else showPts o.users
+          | q => queryState o.st q
       | _, _, _, _, _, _ => "bad-op"
   | op :: rest =>
     if op == "verts" || op == "inside" || op == "border" || op == "borderuser" || op == "randuser" || op == "adduser" then
